@@ -11,7 +11,7 @@ RULE = {
     "logsource": {"category": "c", "product": "windows"},
     "tags": ["attack.t1000"],
     "fields": ["fieldA", "fieldE"],
-    "detection": {"sel": {"fieldA": ["foo*", "bar"], "fieldC": None, "fieldD": 5}, "condition": "sel"},
+    "detection": {"sel": {"fieldA": ["foo*", "bar"], "fieldC": None, "fieldD": 5, "fieldG|fieldref": "fieldH"}, "condition": "sel"},
 }
 
 
@@ -99,13 +99,14 @@ def drive_case(case):
         items = r.detection.detections["sel"].detection_items
         return {
             "items": [str(i.field).endswith("_M") for i in items],
+            "refs": [v.field.endswith("_M") for i in items for v in i.value if type(v).__name__ == "SigmaFieldReference"],
             "fields": [f.endswith("_M") for f in r.fields],
             "rule": p.state.get("mark") == "1",
         }
 
     ret = outcome(go)
     if not ret["ok"]:
-        ret["out"] = {"items": [], "fields": [], "rule": False}
+        ret["out"] = {"items": [], "fields": [], "rule": False, "refs": []}
     return {"id": case["id"], "G": case["G"], "ret": ret}
 
 
@@ -126,7 +127,7 @@ def run(tier: str, seed: int) -> int:
         "type (12 rule, 11 detection-item, 8 field-name conditions): every group alone with 0, 1 or 2 conditions in list form "
         "(default/and/or linking x negation) or map form with every expression over 1-2 identifiers, incl. the EMPTY group "
         "under every linking/negation setting, plus a seeded product of 12 x 12 x 10 groups; a marker transformation behind "
-        "a state-setting and a field-renaming item shows where it acted (3 detection items, 2 field-list entries, the rule); "
+        "a state-setting and a field-renaming item shows where it acted (4 detection items, a field reference in a value, 2 field-list entries, the rule); "
         "non-trivial = at least one condition",
         samples=samples,
         traces=len(obs),
